@@ -146,13 +146,21 @@ CLAIMS['C06'] = dict(
           'admitting the other numeric type or a non-number, an exact alternative by value equality, and an alternative that is itself a '
           '(named) constraint admitting exactly what that constraint admits; the VM builds arm k from the k-th group of operands in source '
           'order (start below end, NULL = open, mixed Int/Float = error) and op_check_constraint fails the build iff the value is not '
-          'admitted, leaving the checked value on the stack. The static half (exemplar shapes, tuple/list subset rules in '
-          'Shape::narrow*, the constraint grammar, placement of CheckConstraint by the translator) is NOT covered.'),
+          'admitted, leaving the checked value on the stack. Static half (the exemplar rules): for all shapes without named-constraint '
+          'references the real Shape::narrow / narrow_cached / narrow_tuple_shapes_cached / narrow_list_shapes_cached / is_tuple_subset_cached / '
+          'is_list_subset_cached return a TypeErr iff the two shapes are NOT compatible per the property statement (same primitive type; '
+          'tuples agreeing on shared fields with one field set contained in the other; lists where every element type of one side is '
+          'admitted by the other; holes / Any / empty candidate sets unconstrained), otherwise the more specific side (for tuples: every '
+          'field of both), symbol-table key set and memo cache framed; with named constraints: memo-cache safety (in-progress marker, no '
+          'out-of-range index, results recorded) and TERMINATION on all shapes including self-referential constraints. NOT covered: '
+          'correctness of narrowing through named constraints (least fix point), Func/Module shape arms (stubbed), derive_shape of '
+          'expressions, the constraint grammar, placement of CheckConstraint by the translator.'),
     design_ref='DESIGN.md §5 C06',
     note=('Trusted: Verus/Z3; container equality (List/Tuple arms of Val::equal) and the IR conversion of containers are uninterpreted stubs; '
           'f64 comparisons are functions of their operands; Option::is_none_or / Result::unwrap_or specs; .iter().any() through a verified '
-          'loop model; stack depth >= operands demanded by the arm types is a caller obligation (translator invariant).'),
-    technique='Verus contracts on extracted ConstraintVal::check, Val::equal (scalars), VM::op_build_constraint/op_check_constraint',
+          'loop model; stack depth >= operands demanded by the arm types is a caller obligation (translator invariant); static half: derived Clone/== of '
+          'Shape structural/reflexive, Rc<str> a lawful BTreeMap key, slice iter().next()/find() through verified models, Func/Module arms assumed.'),
+    technique='Verus contracts on extracted ConstraintVal::check, Val::equal (scalars), VM::op_build_constraint/op_check_constraint, Shape::narrow* and the subset functions',
 )
 
 CLAIMS['C03'] = dict(
@@ -160,8 +168,8 @@ CLAIMS['C03'] = dict(
           'the abstract data tree of the value is defined (constraint values are errors; NULL is an error for TOML; a non-finite float is an '
           'error for JSON) and then the format value denotes exactly that tree: integers exactly, strings/bools identical, lists same length '
           'and order element-wise, tuples same key set value-wise; any failing element fails the whole conversion (nothing dropped). The VM '
-          'value -> Val lowering preserves the tree. KNOWN FINDING (not proved, reported on every run): the JSON converter routes integers '
-          'through f64. The text produced by the serializers and its validity for an independent decoder are NOT covered (dependencies).'),
+          'value -> Val lowering preserves the tree. JSON numbers agree NUMERICALLY (an integer may be written as the double that holds it '
+          'exactly, e.g. 42.0; one trusted IEEE-754 axiom: doubles hold integers up to 2^53 exactly). The text produced by the serializers and its validity for an independent decoder are NOT covered (dependencies).'),
     design_ref='DESIGN.md §5 C03',
     note=('Trusted: Verus/Z3; serde_json::Number / Map, toml Table, serde_yaml Mapping and to_value are models written from the pinned '
           'sources (serde_json and toml without preserve_order: BTreeMap, key-sorted; first-insert-wins for entry().or_insert, last-wins '
